@@ -14,7 +14,7 @@ gvars == <<tree, sort, limit, n>>
 GInit == tree = <<>> /\ sort = "seed" /\ limit = 0 /\ n = 0
 
 Exh == /\ GenMode = "exh" /\ n = 0 /\ n' = 1
-       /\ tree' \in Trees2 /\ sort' \in GSorts /\ limit' \in GLimits
+       /\ tree' \in Trees2(Atoms) /\ sort' \in GSorts /\ limit' \in GLimits
 
 Start == /\ GenMode = "sim" /\ n = 0 /\ n' = 1
          /\ tree' \in Atoms /\ sort' \in GSorts /\ limit' \in GLimits
